@@ -15,6 +15,9 @@ smallest, exactly equal, empty, one element, ten or more items, duplicates); num
 unsigned wrap-around, NaN / inf); legal but unusual spellings of arguments (negative positions, tuples, numpy scalars, mixed lists,
 upper/lower case, surrounding blanks); error paths and fallbacks; defaults evaluated once; state cached on the object or the module;
 code shared with another feature (a helper used by several callers) changed so that only one caller's use breaks.
+Prefer functions, branches and helper modules that the ALREADY TAKEN list has not touched yet (the property is anchored in several
+functions; changes in a helper that the anchored code calls count as well), and triggers that a systematic tester who enumerates small
+inputs exhaustively would still be unlikely to include.
 Do not use `git stash`. Do not read or touch /verif or /repo.
 """
 os.makedirs('/tmp/fcwt', exist_ok=True)
